@@ -265,6 +265,9 @@ def prepare_query(reg: Registry, hyps, goal, extra_terms=(), level=0):
             if anchor.get_id() not in ids:
                 continue
             cands = idx
+            if type(qf).__name__ == "GroundFact":
+                changed |= add(qf.fact)
+                continue
             if type(qf).__name__ in ("MapFact", "RevFact"):
                 cands, cids = [], set()
                 for sid in (qf.mt.get_id(), qf.seq.get_id()):
@@ -420,6 +423,7 @@ class FunctionVerifier:
             t = self.reg.spec_eval(ex, st, cl.fn, self.reg.lambda_env(cl.fn, env))
             st.assume(ex.truth(st, t), "requires:" + cl.name)
         st.pre_heap = dict(st.heap)
+        st.ghost["$params"] = dict(env)
         return st, env
 
     def run_variant(self, ex: Executor, var: dict, vi: int):
@@ -469,6 +473,14 @@ class FunctionVerifier:
                           assume_after=False, extra={"note": f"postcondition not evaluable on this path: {e}"})
                 continue
             ex.oblige(s, f"post[{cl.name}]", goal, kind="post", serves=cl.serves, clause=cl.name, assume_after=False)
+        if c.result_is is not None:
+            try:
+                want = self.reg.spec_eval(ex, _with_heap(s, pre_heap), c.result_is, self.reg.lambda_env(c.result_is, env))
+                goal = ex.eq(s, result, want)
+            except EngineUnsupported as e:
+                goal = z3.BoolVal(False)
+            ex.oblige(s, "post[result]", goal, kind="post", serves=c.serves or ["C01"], clause="result",
+                      assume_after=False)
         # raise clauses with a condition: on a normal return the condition must be false
         for rc in c.raises:
             if rc.when is not None:
